@@ -20,42 +20,46 @@ InThorough == InQuick \cup {
 Cfgs == {[method |-> m, strat |-> s, ratio |-> <<1, 2>>] :
             m \in {"replacement", "single_pass", "dynamic"}, s \in {"none", "by_label", "by_group"}}
 
-VARIABLES mode, obj, hist, cfg, gdraws, sample
-vars == <<mode, obj, hist, cfg, gdraws, sample>>
+VARIABLES mode, obj, hist, cfg, gdraws, sample, origin
+vars == <<mode, obj, hist, cfg, gdraws, sample, origin>>
 NoCfg == [method |-> "none", strat |-> "none", ratio |-> <<1, 2>>]
 NoObj == GObj(<<>>, <<>>, "pos", "pos", <<>>)
 
 Init == /\ mode = "object" /\ hist = <<>> /\ cfg = NoCfg /\ gdraws = <<>> /\ sample = NoObj
-        /\ \E inp \in Inputs, sc \in Labels, ec \in Labels : obj = NewG(inp[1], inp[2], sc, ec)
+        /\ \E inp \in Inputs, sc \in Labels, ec \in Labels :
+              obj = NewG(inp[1], inp[2], sc, ec) /\ origin = inp      \* the labelled arguments as given
 
 (* ---- object machine -----------------------------------------------------------*)
 Step(a) == Len(hist) < MaxSteps /\ hist' = Append(hist, a)
-Swap == mode = "object" /\ Step(<<"swap">>) /\ obj' = SwapG(obj) /\ UNCHANGED <<mode, cfg, gdraws, sample>>
+Swap == /\ mode = "object" /\ Step(<<"swap">>) /\ obj' = SwapG(obj) /\ origin' = <<origin[2], origin[1]>>
+        /\ UNCHANGED <<mode, cfg, gdraws, sample>>
 GetItemA(grp) == /\ mode = "object" /\ Step(<<"getitem", grp>>)
-                 /\ UNCHANGED <<mode, obj, cfg, gdraws, sample>>     \* a query: no abstract change
-Query(t) == /\ mode = "object" /\ Step(<<"group_cm", t>>) /\ UNCHANGED <<mode, obj, cfg, gdraws, sample>>
+                 /\ UNCHANGED <<mode, obj, cfg, gdraws, sample, origin>>     \* a query: no abstract change
+Query(t) == /\ mode = "object" /\ Step(<<"group_cm", t>>) /\ UNCHANGED <<mode, obj, cfg, gdraws, sample, origin>>
 (* ---- sampling machine -----------------------------------------------------------*)
 Begin(c) == /\ mode = "object" /\ hist = <<>> /\ mode' = "sampling" /\ cfg' = c /\ gdraws' = <<>>
             /\ (c.strat = "by_group" => \A i \in DOMAIN obj.groups :
                    LET p == GetItem(obj, obj.groups[i]) IN Len(p.pos) > 0 /\ Len(p.neg) > 0)
             /\ Len(obj.pos) > 0 /\ Len(obj.neg) > 0
-            /\ UNCHANGED <<obj, hist, sample>>
+            /\ UNCHANGED <<obj, hist, sample, origin>>
 Draw == /\ mode = "sampling"
         /\ LET c == NextCallG(obj, cfg, gdraws) IN
              \/ (c.fn = "open" /\ gdraws' = Append(gdraws, <<>>))
              \/ (c.fn \notin {"open", "none"} /\
                  \E out \in Support(c, Cap) :
                     gdraws' = [gdraws EXCEPT ![Len(gdraws)] = Append(@, out)])
-        /\ UNCHANGED <<mode, obj, hist, cfg, sample>>
+        /\ UNCHANGED <<mode, obj, hist, cfg, sample, origin>>
 Build == /\ mode = "sampling" /\ NextCallG(obj, cfg, gdraws).fn = "none"
          /\ mode' = "sampled" /\ sample' = SampleFromG(obj, cfg, gdraws)
-         /\ UNCHANGED <<obj, hist, cfg, gdraws>>
+         /\ UNCHANGED <<obj, hist, cfg, gdraws, origin>>
 Next == Swap \/ (\E grp \in {obj.groups[i] : i \in DOMAIN obj.groups} : GetItemA(grp))
         \/ (\E t \in {0, 3, 4} : Query(t)) \/ (\E c \in Cfgs : Begin(c)) \/ Draw \/ Build
 Spec == Init /\ [][Next]_vars
 
 (* ---- invariants --------------------------------------------------------------------*)
 InvSorted == IsAsc(ScoresOf(obj.pos)) /\ IsAsc(ScoresOf(obj.neg))
+(* every score keeps the label it was given, through sorting and swap()            *)
+InvLabelsAttached == SameBag(obj.pos, origin[1]) /\ SameBag(obj.neg, origin[2])
 (* groups partition the data: per-group matrices sum to the overall one             *)
 InvPartition == \A t \in T2 : SumCells(GroupCM(obj, t)) = CountCM(AsScores(obj), t)
 InvGetItem == \A i \in DOMAIN obj.groups :
